@@ -1,6 +1,7 @@
 package main
 
 import (
+	"sort"
 	"fmt"
 	"go/ast"
 	"go/types"
@@ -88,6 +89,39 @@ func verifyUnit(p *Prog, fi *FuncInfo, split *int64) (res *UnitResult) {
 		x.inputs = append(x.inputs, inputSym{Name: val.Op, Go: pv.Name(), Type: typeStr(pv.Type()), Term: val})
 		x.declare(st, pv, val, fi.Decl)
 	}
+	if fi.Lit != nil {
+		// a function literal under contract: the variables it captures from the
+		// enclosing function (receiver, parameters, locals) are unknown values of
+		// their types
+		info := fi.Pkg.TypesInfo
+		seen := map[*types.Var]bool{}
+		for _, pv := range params {
+			seen[pv] = true
+		}
+		var free []*types.Var
+		ast.Inspect(fi.Lit, func(n ast.Node) bool {
+			id, ok := n.(*ast.Ident)
+			if !ok {
+				return true
+			}
+			v, ok := info.Uses[id].(*types.Var)
+			if !ok || v.IsField() || seen[v] || v.Pkg() == nil || v.Parent() == v.Pkg().Scope() {
+				return true
+			}
+			if v.Pos() >= fi.Lit.Pos() && v.Pos() < fi.Lit.End() {
+				return true
+			}
+			seen[v] = true
+			free = append(free, v)
+			return true
+		})
+		sort.Slice(free, func(i, j int) bool { return free[i].Pos() < free[j].Pos() })
+		for _, pv := range free {
+			val := x.unknown(st, "cap."+pv.Name(), pv.Type())
+			x.inputs = append(x.inputs, inputSym{Name: val.Op, Go: pv.Name(), Type: typeStr(pv.Type()), Term: val})
+			x.declare(st, pv, val, fi.Lit)
+		}
+	}
 	// the allocator after boxing parameters is still "entry" for freshness purposes
 	x.alloc0 = st.alloc
 	fr.allocIn = st.alloc
@@ -172,7 +206,7 @@ func unitsFor(p *Prog, prop string) []*FuncInfo {
 	var out []*FuncInfo
 	for _, name := range sortedKeys(p.ByName) {
 		fi := p.ByName[name]
-		if fi.Contract == nil || fi.Decl.Body == nil {
+		if fi.Contract == nil || fi.Body() == nil {
 			continue
 		}
 		if fi.Contract.ServesProp(prop) && !fi.Flag("trusted") {
